@@ -753,7 +753,8 @@ func (in *c39Inst) evDeliver(env *mc.Env) (string, error) {
 	if err != nil || res != fsm.ApplyResultOK {
 		return "delta-refused", mc.Violatef("C39:target-refused-delta", "target refused the delta %s (source index %d): result %q err %v", label, row.SourceIndex, res, err)
 	}
-	if in.failedBatch[row.SourceIndex] {
+	afterFailedBatch := in.failedBatch[row.SourceIndex]
+	if afterFailedBatch {
 		in.st.deliveredAfterFailedBatch.Add(1)
 		delete(in.failedBatch, row.SourceIndex)
 	}
@@ -776,6 +777,10 @@ func (in *c39Inst) evDeliver(env *mc.Env) (string, error) {
 		fp := "C39:delivered-delta-not-applied-once"
 		if !first {
 			fp = "C39:redelivered-delta-applied-again"
+		} else if afterFailedBatch {
+			fp = "C39:delta-answered-ok-but-not-applied-after-failed-batch"
+		} else if companion == 3 {
+			fp = "C39:delta-answered-ok-but-not-applied-in-batch-reapplied-after-stale-commit"
 		}
 		return obs, mc.Violatef(fp, "after delivering %s (source index %d, first delivery=%v) the target holds %s, want %s", label, row.SourceIndex, first, c39MapStr(got), c39MapStr(in.tgtModel))
 	}
